@@ -1,9 +1,11 @@
 package sym
 
 import (
+	"encoding/json"
 	"go/types"
 	"strconv"
 	"strings"
+	"unicode/utf8"
 
 	"golang.org/x/tools/go/ssa"
 )
@@ -518,11 +520,32 @@ func init() {
 	reg("unicode/utf8.Valid", func(e *Engine, st *State, args []Value, fn *ssa.Function) []Outcome {
 		sl := args[0].(*SliceV)
 		if !sl.IsNil() {
-			if _, isDoc := e.get(st, sl.Obj).(*JDocV); isDoc {
-				return one(st, e.tb.True) // J2 documents are well-formed UTF-8 by construction (bound of the model)
+			if doc, isDoc := e.get(st, sl.Obj).(*JDocV); isDoc {
+				// symbolic string bytes of J2 documents are plain ASCII by construction (bound of the model); concrete
+				// strings and member names are checked for real
+				if !jnodeUTF8(doc.Root) {
+					return one(st, e.tb.False)
+				}
+				return one(st, e.tb.True)
 			}
 		}
 		return e.mergeOutcomes(e.execFunction(fn, args, nil, st))
+	})
+
+	// encoding/json.Valid: a J2 document is syntactically valid JSON by construction; concrete plain bytes are judged
+	// by the real function; anything else is outside the model
+	reg("encoding/json.Valid", func(e *Engine, st *State, args []Value, fn *ssa.Function) []Outcome {
+		sl := args[0].(*SliceV)
+		if sl.IsNil() {
+			return one(st, e.tb.False)
+		}
+		if _, isDoc := e.get(st, sl.Obj).(*JDocV); isDoc {
+			return one(st, e.tb.True)
+		}
+		if c, ok := e.sliceToStr(st, sl).Concrete(); ok {
+			return one(st, e.tb.Bool(json.Valid([]byte(c))))
+		}
+		panic(e.abort("encoding/json.Valid on symbolic plain bytes is not modelled"))
 	})
 
 	// harness-side document builders
@@ -584,4 +607,35 @@ func (e *Engine) builderValue(st *State, iv *IfaceV) *JNode {
 		}
 	}
 	panic(e.abort("vpJ builder: unsupported value type %s", iv.T))
+}
+
+// jnodeUTF8: every concrete string and member name of the tree is well-formed UTF-8.
+func jnodeUTF8(n *JNode) bool {
+	if n == nil {
+		return true
+	}
+	if n.BadUTF8 {
+		return false
+	}
+	if n.Str != nil {
+		if c, ok := n.Str.Concrete(); ok && !utf8.ValidString(c) {
+			return false
+		}
+	}
+	for _, k := range n.Keys {
+		if c, ok := k.Concrete(); ok && !utf8.ValidString(c) {
+			return false
+		}
+	}
+	for _, x := range n.Elems {
+		if !jnodeUTF8(x) {
+			return false
+		}
+	}
+	for _, x := range n.Vals {
+		if !jnodeUTF8(x) {
+			return false
+		}
+	}
+	return true
 }
